@@ -29,6 +29,7 @@ SIGS = {
     'set_last_len': ['oint'],
     'set_trig': ['oint'],
     'set_roots': ['lint'],
+    'set_max_nodes': ['oint'],
     'cofactor': ['int', 'str', 'dnb'],
     'quantify': ['int', 'str', 'lint', 'bool'],
     'compose': ['int', 'dnn'],
